@@ -384,10 +384,19 @@ def family_chain(cat):
         dict(back=[{1}, {2}], inp=[{1}], ahead=[{2}, {1}]),
         dict(back=[], inp=[{1}, {2}], ahead=[]),
         dict(back=[{1, 2}], inp=[{1, 2}], ahead=[{1, 2}]),
+        # patterns that name a glyph the lookup's own filter may ignore: an ignored glyph can never be
+        # matched, wherever it stands (in particular as the last glyph of the string)
+        dict(back=[], inp=[{1}, {4}], ahead=[]),
+        dict(back=[], inp=[{1}], ahead=[{4}]),
+        dict(back=[{4}], inp=[{1}], ahead=[]),
+        dict(back=[], inp=[{1, 2}, {1, 4}], ahead=[{2, 4}]),
     ]
     for fmt in (1, 2, 3):
         for sh in shapes:
             if fmt == 1 and any(len(s) != 1 for s in sh["back"] + sh["inp"] + sh["ahead"]):
+                continue
+            if fmt == 2 and not all(_partition_ok([sorted(x) for x in part])
+                                    for part in (sh["back"], sh["inp"], sh["ahead"])):
                 continue
             for fl in (dict(), dict(flags=["mark"]), dict(flags=["base"])):
                 for kid in ("single", "multi", "lig"):
